@@ -190,4 +190,115 @@ theorem WFc_of_tops_perm (H H' : Ham) (hw : H.WFc) (hp : H'.tops.Perm H.tops) (h
     refine (List.Perm.nodup_iff ?_).2 this
     exact ((hp.flatMap_right _).append_right _).map _
 
+theorem nodup_map_of_inj_on' {α β} (f : α → β) : (l : List α) → l.Nodup → (∀ a ∈ l, ∀ b ∈ l, f a = f b → a = b) →
+    (l.map f).Nodup
+  | [], _, _ => List.nodup_nil
+  | x :: xs, hn, hi => by
+    rw [List.nodup_cons] at hn
+    rw [List.map_cons, List.nodup_cons]
+    refine ⟨?_, nodup_map_of_inj_on' f xs hn.2 (fun a ha b hb => hi a (List.mem_cons_of_mem _ ha) b (List.mem_cons_of_mem _ hb))⟩
+    intro hm
+    obtain ⟨y, hy, hfy⟩ := List.mem_map.1 hm
+    have := hi y (List.mem_cons_of_mem _ hy) x (List.mem_cons_self) hfy
+    rw [this] at hy
+    exact hn.1 hy
+
+/-! ### renumbering -/
+
+theorem alone_shift (k : Nat) (ks : List Node) (n : Node) :
+    aloneIfUnflagged (Node.shiftL k ks) (n.shift k) = aloneIfUnflagged ks n := by
+  unfold aloneIfUnflagged
+  rw [sh_dup, shiftL_eq_map, List.filter_map, List.length_map]
+  have : ks.filter ((fun k' => k'.tx == (n.shift k).tx) ∘ Node.shift k) = ks.filter (fun k' => k'.tx == n.tx) := by
+    apply List.filter_congr
+    intro k' _
+    simp [Function.comp]
+  rw [this]
+  cases n.dup <;> rfl
+
+mutual
+theorem shift_aligned (k : Nat) : (n : Node) → (n.shift k).aligned = n.aligned
+  | .gene .. => rfl
+  | .hog info t d ks ds => by
+    simp only [Node.shift, Node.aligned]
+    exact shiftL_aligned k t ks
+theorem shiftL_aligned (k : Nat) (t : Taxon) : (l : List Node) → alignedL t (Node.shiftL k l) = alignedL t l
+  | [] => rfl
+  | n :: ns => by
+    simp only [Node.shiftL, alignedL]
+    rw [shift_aligned k n, shiftL_aligned k t ns]
+    congr 2
+    unfold oneBelow
+    rw [sh_tx]
+end
+
+mutual
+theorem shift_disciplined (k : Nat) : (n : Node) → (n.shift k).disciplined = n.disciplined
+  | .gene .. => rfl
+  | .hog info t d ks ds => by
+    simp only [Node.shift, Node.disciplined]
+    rw [shiftL_disciplined k ks]
+    congr 1
+    rw [shiftL_eq_map, List.all_map]
+    apply List.all_congr rfl
+    intro n
+    simp only [Function.comp]
+    rw [← shiftL_eq_map]
+    exact alone_shift k ks n
+theorem shiftL_disciplined (k : Nat) : (l : List Node) → disciplinedL (Node.shiftL k l) = disciplinedL l
+  | [] => rfl
+  | n :: ns => by
+    simp only [Node.shiftL, disciplinedL]
+    rw [shift_disciplined k n, shiftL_disciplined k ns]
+end
+
+/-- **the renumbered analysis is well formed** -/
+theorem WFc_renumber (H : Ham) (hw : H.WFc) (k : Nat) : (H.renumber k).WFc where
+  aligned := by
+    intro p hp
+    obtain ⟨p0, hp0, rfl⟩ := List.mem_map.1 hp
+    simp only [shift_aligned]
+    exact hw.aligned p0 hp0
+  disciplined := by
+    intro p hp
+    obtain ⟨p0, hp0, rfl⟩ := List.mem_map.1 hp
+    simp only [shift_disciplined]
+    exact hw.disciplined p0 hp0
+  keys := by
+    have hs : (H.renumber k).singletons = H.singletons := by
+      unfold Ham.singletons Ham.renumber
+      simp only [List.flatMap_map, shift_leaves]
+    have heq : (H.renumber k).allLocs.map (fun l => l.node.key) = (H.allLocs.map fun l => l.node.key).map (Key.shift k) := by
+      unfold Ham.allLocs
+      rw [hs]
+      simp only [List.map_append, List.map_map]
+      congr 1
+      · unfold Ham.renumber
+        simp only [List.flatMap_map]
+        have : ∀ (tops : List (Option String × Node)),
+            (tops.flatMap fun p => locs [] (p.2.shift k)).map (fun l => l.node.key) =
+              (tops.flatMap fun p => locs [] p.2).map ((Key.shift k) ∘ fun l => l.node.key) := by
+          intro tops
+          induction tops with
+          | nil => rfl
+          | cons p tops ih =>
+            simp only [List.flatMap_cons, List.map_append, ih]
+            congr 1
+            have := locs_shift k p.2 []
+            simp only [List.map_nil] at this
+            rw [this, List.map_map]
+            apply List.map_congr_left
+            intro l _
+            simp [Function.comp, Loc.map]
+        exact this H.tops
+      · apply List.map_congr_left
+        intro g hg
+        unfold Ham.singletons at hg
+        obtain ⟨r, _, rfl⟩ := List.mem_map.1 hg
+        simp [Function.comp, Node.key, Key.shift]
+    have := hw.keys
+    unfold Ham.keys at this ⊢
+    rw [heq]
+    exact nodup_map_of_inj_on' _ _ this (fun a _ b _ e => (Key.shift_inj k a b).1 e)
+
 end Pyham
